@@ -133,7 +133,8 @@ def structured(b, r):
         # rules inside the grammar whose geometry is odd: a DST period shorter than its own saving (the fall-back
         # crosses the spring-forward on the local time line), start = end, a saving of a whole day
         for s in (b"AAA0BBB-2,J100/0,J100/2:30", b"AAA12BBB-12,J100/0,J101/6", b"AAA0BBB-1,J100/0,J100/0", b"AAA0BBB-2,J100/3,J100/2",
-                  b"AAA5BBB4:59:59,M3.2.0,M3.2.0/2"):
+                  b"AAA5BBB4:59:59,M3.2.0,M3.2.0/2", b"AAA24BBB-24,0/0,J365/100", b"XXX0YYY,0/0,J365/25:30", b"XXX0YYY,J100/2,J100/3",
+                  b"AAA5BBB,J1/0,J365/25", b"XXX0YYY,M1.1.0,M6.1.0", b"AAA5BBB,0/-2,J1/-100", b"AAA5BBB,J1/-30,0/-80"):
             yield "footer-odd=%s" % s.decode(), body + b"\n" + s + b"\n"
         for s in r.sample(posixgen.sentences(r.randrange(10 ** 6), 40), 25):
             if b"\n" not in s:
